@@ -179,10 +179,15 @@ def write_evidence(ctx: Ctx, level: str) -> str:
                        "violations; count = violations reported]").strip()
     if not cov["caps"]:
         cov.pop("caps")
-    if level != "model_checking":
+    if level != "model_checking" or not cov.get("states") \
+            or not cov.get("transitions"):
+        # (a run that stopped at its first violation may not have counted
+        # states/transitions yet: the generic keys are used then)
         for k in ("states", "transitions", "traces_validated_against_impl"):
             if not cov.get(k):
                 cov.pop(k, None)
+    if ctx.violations and not cov.get("evaluations"):
+        cov["evaluations"] = len(ctx.violations)
     ev = {"property_id": ctx.prop, "tier": ctx.tier, "seed": ctx.seed,
           "level": level, "coverage": jsonable(cov),
           "assumptions": ctx.assumptions,
@@ -253,12 +258,8 @@ def main(argv: list[str]) -> int:
                   else "VIOLATION reproduced")
             return 0 if ok else 1
         mod.run(ctx)
-    except HarnessError as e:
-        print(f"HARNESS-ERROR property={prop}: {e}", flush=True)
-        traceback.print_exc()
-        return 2
     except Exception as e:  # noqa
-        if not ctx.violations:
+        if not ctx.violations or args.replay:
             print(f"HARNESS-ERROR property={prop}: {type(e).__name__}: {e}",
                   flush=True)
             traceback.print_exc()
